@@ -138,6 +138,7 @@ func NewEngineCorpus(id string, withRace bool, corpusLimit int) (*Engine, error)
 	e.GenStats, err = rewrite.Typed(rewrite.Options{
 		ModuleDir: h, Env: append(os.Environ(), s.Env()...), Patterns: patterns,
 		SimrtPath: simbuild.SimrtPath, SimjxPath: simbuild.SimjxPath, R1: true, R2: true, R3: true, R5: true,
+		R7: func(string) bool { return true },
 	})
 	if err != nil {
 		return nil, build.Toolf("simrewrite of the regenerated world: %v", err)
